@@ -16,6 +16,7 @@ from common import hexs
 
 SIG_F2 = "C14:F2:escaped-base64-stream-data-rejected"
 SIG_F3 = "C14:F3:stale-length-in-stream-dict-after-data-not-ignored"
+SIG_F4 = "C14:F4:stream-replaced-by-reference-to-itself"
 
 
 class JO(list):
@@ -423,7 +424,7 @@ def part_import_reactor(cx):
     chk, rng = cx.chk, cx.rng
     wd = os.path.join(common.workdir("C14-import"))
     cases = []        # (kind, base index or None, texts tuple (bytes,...), style description)
-    nbase = 40 if cx.quick else 600
+    nbase = 80 if cx.quick else 600
     nvar = 9 if cx.quick else 14
     for i in range(nbase):
         doc, maxobj = gen_complete(rng, wd, "c%d" % i)
@@ -441,6 +442,14 @@ def part_import_reactor(cx):
             cases.append(("update-base", None, (base_text, render_text(upd, Style(rng))), "qpdf's own layout"))
             for st in styles(rng, 5 if cx.quick else 9):
                 cases.append(("update-variant", ub, (base_text, render_text(upd, st)), st.describe()))
+        # "value": "n g R" at the top of an object is not a value (manual: the value of an object may not be an indirect object
+        # reference): it must be refused for a stream as it is for any other object
+        if i % 4 == 0:
+            for k, v in doc[0][1][1]:
+                if k != "trailer" and (v[0][0] == "stream" or rng.random() < 0.2):
+                    ref = k[4:]
+                    upd = JO([("qpdf", [JO([("jsonversion", JNum("2"))]), JO([(k, JO([("value", ref)]))])])])
+                    cases.append(("self-reference", None, (base_text, render_text(upd, Style(rng))), "qpdf's own layout"))
     for i in range(60 if cx.quick else 1500):
         doc = malformed(rng, wd, "m%d" % i)
         st = Style(rng, order=rng.choice(["keep", "keep", "shuffle", "dict-first"]), ws=rng.choice(["pretty", "compact"]))
@@ -460,7 +469,9 @@ def part_import_reactor(cx):
     for i, (kind, b, texts, descr) in enumerate(cases):
         kinds[kind] = kinds.get(kind, 0) + 1
         case = {"json_texts_hex": [t.hex() for t in texts] if sum(len(t) for t in texts) < 20000 else "too large", "api": "QPDF::createFromJSON" + (" + updateFromJSON" if len(texts) > 1 else ""),
-                "spelling": descr, "kind": kind}
+                "spelling": descr, "kind": kind,
+                "cli": "save the (last) text as x.json: qpdf --json-input x.json --json-output -" if len(texts) == 1 else
+                       "save the texts as a.json, b.json: qpdf --json-input a.json a.pdf; qpdf a.pdf --update-from-json=b.json --json-output -"}
         a = impl[i]
         m = " ".join(subst_files(x) for x in model[i].split(" "))
         if "unmodelled" in m or kind == "variant-escaped-data":
@@ -473,6 +484,10 @@ def part_import_reactor(cx):
             cx.match("import-reactor", case, a, m)
         if a.startswith("ok;"):
             nontriv.add(texts)
+        if kind == "self-reference" and a != "none":
+            cx.bad("import-reactor", case, "an update whose \"value\" is the object's own reference is accepted and leaves an object that refers to itself "
+                   "(for an object that is not a stream the same text is refused): " + a[:400],
+                   signature=SIG_F4 if re.search(r";(\d+)\.(\d+)=v:R\1\.\2(;|$)", a) else "", implementation=a[:1500])
         if b is None:
             continue
         # the property on the implementation: the variant gives the document the base text gives
